@@ -149,6 +149,9 @@ class Supp:
                 pr = project(self.ev, t.obj, t.idx.value)
                 if pr is not None:
                     return self.of(pr)
+            ix = t.idx.elts if t.idx.op == "tuple" else [t.idx]
+            if ix and all((i_.op == "const" and i_.value is None) or (i_.op == "ref" and i_.ref.qual == "builtins.Ellipsis") or (i_.op == "const" and i_.value is Ellipsis) or (i_.op == "slice" and all(b_ is None or (b_.op == "const" and b_.value is None) for b_ in (i_.lo, i_.hi, i_.step))) for i_ in ix):
+                return self.of(t.obj)  # x[..., None], x[None], x[:, None]: axes of length 1 added, no shape source changes
             if "others" in self.ans:
                 # operands of a variadic contraction: args[argnum] is the differentiated one, slices are the others
                 base = t.obj
@@ -194,9 +197,14 @@ class Supp:
             if bn == "einsum" and "others" in self.ans:
                 ops = [self.of(a) for a in args[1:]]
                 return self.union([o for o in ops])
-            if bn in ("cross", "matmul") and len(args) >= 2:
+            if bn in ("cross", "matmul", "linalg.solve") and len(args) >= 2:
                 # leading (batch) dimensions of both operands broadcast into the result
                 return self.union([self.of(args[0]), self.of(args[1])])
+            if bn == "einsum" and args and args[0].op == "const" and isinstance(args[0].value, str) and "..." in args[0].value and not t.kw:
+                # a contraction written with an ellipsis: the ellipsis (batch) dimensions of the operands broadcast
+                return self.union([self.of(a) for a in args[1:]])
+            if bn in ("linalg.inv", "linalg.pinv", "conj", "conjugate", "real", "imag") and args:
+                return self.of(args[0])
             if bn in ("sum", "mean", "prod", "max", "min", "amax", "amin", "any", "all", "nansum"):
                 if len(args) == 1 and not ({"axis", "keepdims"} & set(t.kw)):
                     return frozenset()  # full reduction: a scalar
